@@ -3521,13 +3521,16 @@ namespace regex
         constexpr bool match(match_options opts, const Buffer& buf, Stream& s) const
         {
             auto res = dfa_match(sm, opts, source_point{}, buf.begin(), buf.end(), s);
-            auto end = buf.begin() + res.len;
-            if (res.term_idx == 0 && end == buf.end())
+            bool recognized = res.term_idx == 0;
+            auto end = buf.begin() + (recognized ? res.len : 0);
+            if (recognized && end == buf.end())
                 return true;
             else
             {
-                if (res.term_idx == 0)
+                if (recognized)
                     s << "Leftover text after recognition: " << buf.get_view(end, buf.end()) << "\n";
+                else if (end == buf.end())
+                    s << "Unexpected end of input\n";
                 else
                     s << "Unexpected char: " << utils::c_names.name(*end) << "\n";
                 return false;
